@@ -1,5 +1,6 @@
 """Shared orchestration for the store family (C01 C04 C07 C08 C11 C14): Store.tla -> behaviours -> real stores -> StoreTrace.tla."""
-import os, sys, json, random, subprocess, concurrent.futures as cf
+import os, sys, json, random, re, subprocess, concurrent.futures as cf
+_RESET = re.compile(r'"ev": ?"reset"')
 sys.path.insert(0, os.path.join(os.path.dirname(os.path.abspath(__file__)), "..", "lib"))
 import vcheck as V
 
@@ -40,7 +41,7 @@ def run_driver_parallel(drv, behs, sc, extra_args=(), procs=12, tag="t"):
     with open(out, "w") as o:
         for i, f in enumerate(files):
             for line in open(f):
-                if '"ev":"reset"' in line[:60]:
+                if _RESET.search(line[:300]):
                     e = json.loads(line)
                     local = e["t"] - 1
                     index.append(order[i][local])
@@ -96,7 +97,7 @@ def load_regress(prefix):
 
 
 def store_check(prop, model_cfgs, gen_cfgs, quick_n, thorough_n, kinds_note, invs, extra_behaviours=None, assumptions=(),
-                filt=None, selftest=None, relevant=None, counterexamples=()):
+                filt=None, selftest=None, relevant=None, counterexamples=(), oracle=False):
     """generic body: model_cfgs [(cfg, heap)] exhaustive; gen_cfgs [cfg] edge-cover export; sample sizes per tier."""
     res = V.Result(prop)
     sc = V.Scratch(prop)
@@ -187,24 +188,28 @@ def store_check(prop, model_cfgs, gen_cfgs, quick_n, thorough_n, kinds_note, inv
             monitor=dict(spec="StoreTrace.tla", lines=info["stats"]["distinct"], wall_s=info["wall_s"]),
             regression_behaviours=len(reg),
         )
+        if oracle and rb is None:
+            # ground the reference implementation (and the node) in the real Solidity contracts, executed in an in-process EVM
+            import contracts_oracle as CO
+            CO.attach(res, sc, prop)
         res.assumptions = list(assumptions) + [
             "keccak is injective and generated leaf contents are pairwise distinct (names identify hashes)",
-            "the reference implementation in harness/names (plain keccak Merkle tree, Solidity leaf packing) is the ground truth for names",
+            ("names are grounded in the real contracts by the contract oracle run (coverage.contract_oracle)" if oracle else
+             "the reference implementation in harness/names (plain keccak Merkle tree, Solidity leaf packing) is the ground truth for names; "
+             "it is grounded in the real contracts by the contract oracle run of C01/C11"),
         ]
     finally:
         sc.close()
     res.finish()
 
 
-import re
-_RESET = re.compile(r'"ev": ?"reset"')
 
 
 def default_selftest(tf, sc):
     lines = open(tf).read().splitlines()
     start = None
     for i, l in enumerate(lines):
-        if _RESET.search(l[:60]):
+        if _RESET.search(l[:300]):
             start = i
             continue
         if start is None or '"snap"' not in l[:40]:
@@ -212,7 +217,7 @@ def default_selftest(tf, sc):
         e = json.loads(l)
         if not [r for r in e["s"].get("roots", []) if r.get("c") == "ok"]:
             continue
-        end = next((j for j in range(i + 1, len(lines)) if _RESET.search(lines[j][:60])), len(lines))
+        end = next((j for j in range(i + 1, len(lines)) if _RESET.search(lines[j][:300])), len(lines))
         mut = [json.loads(x) for x in lines[start:end]]
         for r in mut[i - start]["s"]["roots"]:
             if r.get("c") == "ok":
